@@ -1387,13 +1387,13 @@ def parse_assignment_indices(indices, shape):
 
             start, stop, step = index.indices(size)
 
-            # Note: We now have stop >= start and step >= 0
+            # Note: We now have step > 0
 
             div, mod = divmod(stop - start, step)
-            if not div and not mod:
-                # stop equals start => zero-sized slice for this
-                # dimension
+            if stop <= start:
+                # zero-sized slice for this dimension
                 implied_shape.append(0)
+                implied_shape_positions.append(i)
             else:
                 if mod != 0:
                     div += 1
@@ -1737,14 +1737,6 @@ def setitem_array(out_name, array, indices, value):
     indices, implied_shape, reverse, implied_shape_positions = parse_assignment_indices(
         indices, array_shape
     )
-
-    # Empty slices can only be assigned size 1 values
-    if 0 in implied_shape and value_shape and max(value_shape) > 1:
-        raise ValueError(
-            f"shape mismatch: value array of shape {value_shape} "
-            "could not be broadcast to indexing result "
-            f"of shape {tuple(implied_shape)}"
-        )
 
     # Set variables needed when creating the part of the assignment
     # value that applies to each block.
